@@ -43,3 +43,81 @@ def send_sync_scan(tier, seed):
                 hits.append(f"{os.path.relpath(p, '/repo')}: {m.group(0)}")
     return {"name": "send_sync_scan", "evaluations": 1, "failures": [], "suspicions": sorted(set(hits)),
             "note": "no unsafe impl Send/Sync, no static mut, no interior mutability outside the mergers" if not hits else "interior mutability / unsafe Send-Sync found"}
+
+
+FEATS = ["std", "cache-type-score", "fix-weight-length", "tag-prediction", "charwise-pma"]
+DRIVER = os.path.join(ROOT, "lean", ".lake", "build", "bin", "vdriver")
+
+
+def _feat_builds(tier):
+    full = list(FEATS)
+    builds = [("default", full), ("none", [])]
+    for f in FEATS:
+        builds.append(("no-" + f, [x for x in full if x != f]))
+    if tier == "thorough":
+        seen = {tuple(sorted(b[1])) for b in builds}
+        for mask in range(32):
+            fs = [FEATS[i] for i in range(5) if mask >> i & 1]
+            if tuple(sorted(fs)) not in seen:
+                seen.add(tuple(sorted(fs)))
+                builds.append(("m%02d" % mask, fs))
+    return builds
+
+
+def feature_matrix(tier, seed):
+    """C13: one binary per cargo-feature subset of vaporetto, all run on the same cases; every output is compared with the
+    model under the matching configuration and with the default build"""
+    out = {"name": "feature_matrix", "evaluations": 0, "failures": [], "suspicions": [], "stats": {}}
+    g = subprocess.run([HARNESS, "gen", "C13", tier, str(seed)], capture_output=True, text=True, env=ENV)
+    if g.returncode != 0:
+        out["failures"].append({"what": "generator failed", "stderr": g.stderr[-500:]})
+        return out
+    cases = g.stdout.splitlines()
+    results = {}
+    builds = _feat_builds(tier)
+    nightly_ok = False
+    if tier == "thorough":
+        builds.append(("portable-simd", FEATS + ["portable-simd"]))
+    for name, feats in builds:
+        tdir = os.path.join(ROOT, "target", "feat-" + name)
+        cmd = ["cargo"] + (["+nightly"] if name == "portable-simd" else []) + ["build", "--release", "--offline", "--target-dir", tdir]
+        if feats:
+            cmd += ["--features", ",".join(feats)]
+        b = subprocess.run(cmd, cwd=os.path.join(ROOT, "harness-feat"), capture_output=True, text=True, env=ENV)
+        if b.returncode != 0:
+            if name == "portable-simd":
+                out["stats"]["portable-simd"] = "nightly build unavailable: " + b.stderr[-200:]
+                continue
+            out["suspicions"].append(f"feature build {name} ({feats}) does not compile: {b.stderr[-300:]}")
+            continue
+        exe = os.path.join(tdir, "release", "vfeat")
+        cfg = subprocess.run([exe, "cfg"], capture_output=True, text=True).stdout.strip()
+        data = "".join(c.replace("F @", "F " + cfg, 1) + "\n" for c in cases)
+        r = subprocess.run([exe], input=data, capture_output=True, text=True)
+        m = subprocess.run([DRIVER], input=data, capture_output=True, text=True)
+        impl, model = r.stdout.splitlines(), m.stdout.splitlines()
+        results[name] = impl
+        out["evaluations"] += len(impl)
+        if r.returncode != 0 or len(impl) != len(cases) or len(model) != len(cases):
+            out["failures"].append({"what": f"feature build {name} crashed", "stderr": r.stderr[-400:]})
+            continue
+        bad = [i for i in range(len(cases)) if impl[i] != model[i]]
+        out["stats"][name] = {"cfg": cfg, "features": feats, "cases": len(cases), "model_disagreements": len(bad)}
+        if bad:
+            i = bad[0]
+            out["suspicions"].append(f"build {name} (cfg {cfg}) differs from the model on case {cases[i][:300]}: impl {impl[i][:200]} model {model[i][:200]}")
+    # cross-build comparison = the property itself, evaluated on the implementation only
+    ref = results.get("default")
+    if ref:
+        out["distinct_nontrivial"] = len({c for c, o in zip(cases, ref) if o.startswith("S")})
+        out["samples"] = [{"case": cases[i][:400], "default_build": ref[i][:300]} for i in (0, len(cases) // 2)]
+    if ref:
+        for name, impl in results.items():
+            for i, (a, b) in enumerate(zip(ref, impl)):
+                a2, b2 = a.split(";")[:2], b.split(";")[:2]
+                tags_both = ";K" in a and ";K" in b
+                if a2 != b2 or (tags_both and a != b):
+                    out["failures"].append({"what": f"feature build {name} gives a different result than the default build",
+                                            "case": cases[i], "default": a[:500], name: b[:500]})
+                    break
+    return out
